@@ -82,6 +82,23 @@ static void check_domain(const char *sub, const unsigned char *d, size_t n) {
         eav_result_free(r);
     }
     }
+    /* an invalid domain makes the address invalid WHATEVER stands in front of the '@': a local part that opens a bracket, quote or comment
+     * which the domain's last byte would close (<x@a.b> (x@a.b) "x@a.b" ...) is the shape a tolerant front end strips before validating */
+    if (!strcmp(sub, "L2") && n + 8 < sizeof buf) {
+        char ob[MC_CASEMAX + 8];
+        static const char OPEN[] = "<([{\"'`:;,!#$%&*+-/=?^_|~ \t\x01\x7f";
+        for (int oi = 0; oi < (mc_thorough ? 255 : (int)sizeof OPEN - 1); oi++) {
+            ob[0] = mc_thorough ? (char)(oi + 1) : OPEN[oi]; ob[1] = 'x'; ob[2] = '@'; memcpy(ob + 3, d, n); ob[n + 3] = 0;
+            if (ob[0] == '@') continue;
+            for (int m = 0; m < 4; m++) {
+                int e = (m == 3) ? exp6 : exp; if (e == R_ACC || e == R_ANY) continue;
+                eav_result_t *r = EMAIL[m](ob, n + 3, false); MC_ADD(C_EVAL, 1);
+                if (r->rc == 0) { char cfg[40], w[96]; snprintf(cfg, sizeof cfg, "ctx=opener mode=%s open=%d", MN[m], (unsigned char)ob[0]); snprintf(w, sizeof w, "%s:accepted-although-the-domain-is-invalid(local part opens with 0x%02x)", MN[m], (unsigned char)ob[0]);
+                    mc_violation(sub, w, "", cfg, d, n, "is_%s_email(%cx@D, tld off) accepts, but D is not a valid domain (reference REJECT)", MN[m], ob[0] >= 0x20 && ob[0] < 0x7f ? ob[0] : '?'); }
+                eav_result_free(r);
+            }
+        }
+    }
     /* is_utf8_domain directly (buf holds x@D here: the short local part ran last) */
     int ir = 0;
     int rc8 = is_utf8_domain(&ir, buf + 2, buf + 2 + n, false);
